@@ -7,7 +7,9 @@ theorem tame_finishMeta (p : Pool) (m o) : Tame p (p.finishMeta m o) := by
   unfold finishMeta
   split
   · exact Tame.refl p
-  · exact Tame.trans (tame_modReq p m _) (tame_emitChildren _ _)
+  · refine Tame.trans (tame_modReq p m _ ?_) (tame_emitChildren _ _)
+    intro x
+    exact ⟨rfl, rfl, rfl, by simp [Req.pend], fun _ _ h => by cases h⟩
 
 theorem grantsL_append_notGranted (ws : List Waiter) (w : Waiter) (h : w.st ≠ .granted) :
     grantsL (ws ++ [w]) = grantsL ws := by
@@ -15,8 +17,8 @@ theorem grantsL_append_notGranted (ws : List Waiter) (w : Waiter) (h : w.st ≠ 
 
 /-- queueing behind the pool semaphore moves no slot (it only happens when the semaphore is locked, which an
 unbounded semaphore without waiters never is) -/
-theorem good_waitRoom {cap : Cap} {L : Bool} (p : Pool) (m) (hg : Good cap L p) (hl : p.sem.locked = true) :
-    Good cap L (p.waitRoom m) := by
+theorem good0_waitRoom {cap : Cap} {L : Bool} (p : Pool) (m) (hg : Good0 cap L p) (hl : p.sem.locked = true) :
+    Good0 cap L (p.waitRoom m) := by
   have facts : (p.waitRoom m).sem.value = p.sem.value ∧ grantsL (p.waitRoom m).sem.waiters = grantsL p.sem.waiters ∧
       (p.waitRoom m).tasks = p.tasks ∧ (p.waitRoom m).running = p.running ∧ (p.waitRoom m).cancelledR = p.cancelledR ∧
       (p.waitRoom m).ended = p.ended ∧ (p.waitRoom m).lost = p.lost ∧ (p.waitRoom m).groups = p.groups ∧
@@ -35,12 +37,49 @@ theorem good_waitRoom {cap : Cap} {L : Bool} (p : Pool) (m) (hg : Good cap L p) 
     obtain ⟨hv, hw⟩ := hg.slot
     simp [Sem.locked, hv, hw, Cap.isZero] at hl
 
+/-- the spawner of request `m` starts waiting for room: the map slot it carries (a map request always carries one
+here) is entered in the books as carried -/
+theorem mapOK_waitRoom {p : Pool} {m k : Nat} (h : MapMid p m k) (hlt : m < p.reqs.length)
+    (hpre : ∀ r, p.reqs[m]? = some r → r.kind = .map → r.acquired = true ∧ 1 ≤ k) : MapOK (p.waitRoom m) := by
+  have key : ∀ P : Pool, P.reqs = p.reqs → P.tasks = p.tasks →
+      MapMid (P.modReq m fun x => { x with frame := MFrame.waitRoom, mustCancel := false }) m 0 := by
+    intro P hr ht
+    refine (h.of_eq hr ht).modReq _ 0 ?_ (fun _ => rfl) ?_
+    · intro r v hr' hv
+      rw [hr] at hr'
+      refine ⟨v, hv, ?_⟩
+      have hw : ({ r with frame := MFrame.waitRoom, mustCancel := false } : Req).mapSem.waiters = r.mapSem.waiters := rfl
+      by_cases hk : r.kind = .map
+      · have := hpre r hr' hk
+        have hp : Req.pend { r with frame := MFrame.waitRoom, mustCancel := false } = 1 := by simp [Req.pend, hk, this.1]
+        rw [hp, hw]; omega
+      · have hk' : (r.kind == ReqKind.map) = false := by simpa using hk
+        have hp : Req.pend { r with frame := MFrame.waitRoom, mustCancel := false } = 0 := by simp [Req.pend, hk']
+        rw [hp, hw]; omega
+    · intro r hr' _ hk _
+      rw [hr] at hr'
+      exact (hpre r hr' hk).1
+  unfold waitRoom
+  simp only
+  split
+  · refine MapMid.ok (m := m) (k := 0) ?_
+    refine (tame_schedMeta _ m).mapFrame.mid ?_ (by simpa [modReq] using hlt)
+    exact key _ rfl rfl
+  · refine MapMid.ok (m := m) (k := 0) ?_
+    exact key _ rfl rfl
+
+theorem msigLe_waitMapSem (x : Req) (w : Waiter) (hw : w.st ≠ .granted) :
+    MSigLe { x with frame := MFrame.waitMapSem, mustCancel := false, acquired := false, mapSem := { x.mapSem with waiters := x.mapSem.waiters ++ [w] } } x :=
+  ⟨rfl, grantsL_append_notGranted _ _ hw, rfl, by simp [Req.pend], fun _ _ h => by cases h⟩
+
 theorem tame_waitMapSem (p : Pool) (m) : Tame p (p.waitMapSem m) := by
   unfold waitMapSem
   simp only
   split
-  · exact Tame.trans (tame_modReq p m _) (tame_schedMeta _ m)
-  · exact tame_modReq p m _
+  · refine Tame.trans (tame_modReq p m _ ?_) (tame_schedMeta _ m)
+    intro x; exact msigLe_waitMapSem x _ (by simp)
+  · refine tame_modReq p m _ ?_
+    intro x; exact msigLe_waitMapSem x _ (by simp)
 
 theorem locked_false_pos (s : Sem) (v : Nat) (hv : s.value = .fin v) (h : s.locked = false) : 0 < v := by
   unfold Sem.locked at h
@@ -83,9 +122,9 @@ theorem _root_.Taskpool.GroupsOK.create {p : Pool} (hr : GroupsOK p) (g : String
     · exact Nat.lt_succ_of_lt (hr.lt i h)
 
 /-- appending a fresh task in phase `created` -/
-theorem good_createTask_afterTake {cap : Cap} {L : Bool} (p : Pool) (m : Nat) (isMap : Bool)
+theorem good0_createTask_afterTake {cap : Cap} {L : Bool} (p : Pool) (m : Nat) (isMap : Bool)
     (hph : PhaseOK p) (hreg : RegOK p) (hgrp : GroupsOK p) (hlife : LifeOK p) (hpre : SlotPre cap p) (hst : Strict L p) :
-    Good cap L (p.createTask m isMap) := by
+    Good0 cap L (p.createTask m isMap) := by
   unfold createTask
   simp only
   refine ⟨?_, ?_, hreg.create _ rfl _ rfl rfl rfl rfl rfl, hgrp.create _ _ _ rfl rfl, ?_, hst.1, hst.2⟩
@@ -99,7 +138,7 @@ theorem good_createTask_afterTake {cap : Cap} {L : Bool} (p : Pool) (m : Nat) (i
       rcases Nat.lt_or_ge (i - p.tasks.length) 1 with hlt | hge1
       · have : i - p.tasks.length = 0 := by omega
         rw [this] at h; simp at h; subst h
-        exact oks_new _ _ _ _ rfl
+        exact oks_new _ _ _ _ _ _ rfl
       · rw [List.getElem?_eq_none (by simpa using hge1)] at h; cases h
   · cases cap with
     | fin n =>
@@ -119,11 +158,70 @@ theorem good_createTask_afterTake {cap : Cap} {L : Bool} (p : Pool) (m : Nat) (i
         rw [this] at h; simp at h; subst h; rfl
       · rw [List.getElem?_eq_none (by simpa using hge1)] at h; cases h
 
-theorem good_takeSlotAndCreate {cap : Cap} {L : Bool} (p : Pool) (m : Nat) (isMap : Bool) (hg : Good cap L p)
+/-- a fact about request `m` -/
+def ReqAt (p : Pool) (m : Nat) (P : Req → Prop) : Prop := ∀ r, p.reqs[m]? = some r → P r
+
+theorem ReqAt.modReq {p : Pool} {m : Nat} {P : Req → Prop} (h : ReqAt p m P) (f : Req → Req) (hf : ∀ x, P x → P (f x)) :
+    ReqAt (p.modReq m f) m P := by
+  intro r hr
+  simp only [Pool.modReq] at hr
+  obtain ⟨x, hx, rfl⟩ := getElem?_modify_some p.reqs m m f r hr
+  simp only [if_true]
+  exact hf x (h x hx)
+
+theorem reqAt_modReq_new (p : Pool) (m : Nat) (P : Req → Prop) (f : Req → Req) (hf : ∀ x, P (f x)) :
+    ReqAt (p.modReq m f) m P := by
+  intro r hr
+  simp only [Pool.modReq] at hr
+  obtain ⟨x, hx, rfl⟩ := getElem?_modify_some p.reqs m m f r hr
+  simp only [if_true]
+  exact hf x
+
+theorem reqAt_takeSlotAndCreate {p : Pool} {m : Nat} {P : Req → Prop} (h : ReqAt p m P) (isMap : Bool)
+    (hf : ∀ x, P x → P { x with created := x.created + 1 }) : ReqAt (p.takeSlotAndCreate m isMap) m P := by
+  intro r hr
+  unfold takeSlotAndCreate createTask at hr
+  simp only [emitRef, modReq] at hr
+  obtain ⟨x, hx, rfl⟩ := getElem?_modify_some p.reqs m m _ r hr
+  simp only [if_true]
+  exact hf x (h x hx)
+
+theorem reqsLen_takeSlotAndCreate (p : Pool) (m : Nat) (isMap : Bool) :
+    (p.takeSlotAndCreate m isMap).reqs.length = p.reqs.length := by
+  unfold takeSlotAndCreate createTask
+  simp [emitRef, modReq]
+
+theorem reqsLen_waitRoom (p : Pool) (m : Nat) : (p.waitRoom m).reqs.length = p.reqs.length := by
+  unfold waitRoom
+  simp only
+  split <;> simp [modReq, schedMeta, emitRef]
+
+/-- the map books when a task of request `m` is appended: a map task enters the slot that was in flight -/
+theorem mapOK_createTask {p : Pool} {m : Nat} (isMap : Bool) (h : MapMid p m (if isMap then 1 else 0))
+    (hlt : m < p.reqs.length) : MapOK (p.createTask m isMap) := by
+  unfold createTask
+  simp only
+  refine Tame.map (Tame.trans (tame_modReq _ m _) (tame_emitRef _ _)) ?_
+  refine MapMid.ok (m := m) (k := 0) ?_
+  cases isMap with
+  | true =>
+    refine MapMid.addTask (p := p) (k := 0) h ?x ?hq hlt _ ?ht ?hr
+    case ht => rfl
+    case hr => rfl
+    case hq => rfl
+  | false =>
+    refine MapMid.addPlainTask (p := p) h ?y ?hy _ ?ht2 ?hr2
+    case ht2 => rfl
+    case hr2 => rfl
+    case hy => rfl
+
+theorem good_takeSlotAndCreate {cap : Cap} {L : Bool} (p : Pool) (m : Nat) (isMap : Bool) (hg : Good0 cap L p)
+    (hmap : MapMid p m (if isMap then 1 else 0)) (hlt : m < p.reqs.length)
     (hl : p.sem.locked = false) : Good cap L (p.takeSlotAndCreate m isMap) := by
   unfold takeSlotAndCreate
-  refine good_createTask_afterTake _ m isMap (fun i tk h hn => hg.phase i tk h hn)
-    (hg.reg.of_eq rfl rfl rfl rfl rfl) (hg.grp.of_eq rfl rfl) (hg.life.of_eq rfl rfl) ?_ hg.strict
+  refine ⟨good0_createTask_afterTake _ m isMap (fun i tk h hn => hg.phase i tk h hn)
+    (hg.reg.of_eq rfl rfl rfl rfl rfl) (hg.grp.of_eq rfl rfl) (hg.life.of_eq rfl rfl) ?_ hg.strict,
+    mapOK_createTask isMap (hmap.of_eq rfl rfl) hlt⟩
   cases cap with
   | fin n =>
     obtain ⟨v, hv, hs⟩ := hg.slot
@@ -135,7 +233,8 @@ theorem good_takeSlotAndCreate {cap : Cap} {L : Bool} (p : Pool) (m : Nat) (isMa
     simp [hv, hw, Cap.dec]
 
 /-- `_apply_spawner`/`_start_num` from any position -/
-theorem good_applyLoop {cap : Cap} {L : Bool} (m n : Nat) (p : Pool) (hg : Good cap L p) : Good cap L (applyLoop m n p) := by
+theorem good_applyLoop {cap : Cap} {L : Bool} (m n : Nat) (p : Pool) (hg : Good cap L p)
+    (hk : ReqAt p m (fun r => r.kind = .apply)) (hlt : m < p.reqs.length) : Good cap L (applyLoop m n p) := by
   induction n generalizing p with
   | zero =>
     unfold applyLoop
@@ -144,34 +243,63 @@ theorem good_applyLoop {cap : Cap} {L : Bool} (m n : Nat) (p : Pool) (hg : Good 
     unfold applyLoop
     simp only
     have hg0 : Good cap L (p.modReq m fun x => { x with remaining := n + 1 }) := (tame_modReq p m _).good hg
+    have hk0 : ReqAt (p.modReq m fun x => { x with remaining := n + 1 }) m (fun r => r.kind = .apply) :=
+      hk.modReq _ (fun _ h => h)
+    have hlt0 : m < (p.modReq m fun x => { x with remaining := n + 1 }).reqs.length := by simpa [modReq] using hlt
     split
-    · exact ih _ ((tame_modReq _ m _).good hg0)
+    · exact ih _ ((tame_modReq _ m _).good hg0) (hk0.modReq _ (fun _ h => h)) (by simpa [modReq] using hlt)
     · split
       · exact (tame_finishMeta _ m _).good hg0
       · split
         · exact (tame_finishMeta _ m _).good hg0
         · split
-          · rename_i hl; exact good_waitRoom _ m hg0 hl
           · rename_i hl
-            exact ih _ (good_takeSlotAndCreate _ m false hg0 (by simpa using hl))
+            refine ⟨good0_waitRoom _ m hg0.toGood0 hl, mapOK_waitRoom (hg0.map.mid m) hlt0 ?_⟩
+            intro r hr hkind
+            rw [hk0 r hr] at hkind; cases hkind
+          · rename_i hl
+            refine ih _ (good_takeSlotAndCreate _ m false hg0.toGood0 (hg0.map.mid m) hlt0 (by simpa using hl))
+              (reqAt_takeSlotAndCreate hk0 false (fun _ h => h)) ?_
+            rw [reqsLen_takeSlotAndCreate]; exact hlt0
 
-theorem good_mapStartTask {cap : Cap} {L : Bool} (p : Pool) (m : Nat) (hg : Good cap L p) : Good cap L (p.mapStartTask m).1 := by
+theorem good_mapStartTask {cap : Cap} {L : Bool} (p : Pool) (m : Nat) (hg : Good0 cap L p) (hmap : MapMid p m 1)
+    (hlt : m < p.reqs.length) (hacq : ReqAt p m (fun r => r.acquired = true)) :
+    Good cap L (p.mapStartTask m).1 ∧ p.reqs.length ≤ (p.mapStartTask m).1.reqs.length := by
   unfold mapStartTask
   split
-  · exact (tame_finishMeta p m _).good hg
+  · exact ⟨(tame_finishMeta p m _).good ⟨hg, hmap.ok⟩, (tame_finishMeta p m _).rql⟩
   · split
-    · rename_i hl; exact good_waitRoom p m hg hl
     · rename_i hl
-      exact good_takeSlotAndCreate p m true hg (by simpa using hl)
+      exact ⟨⟨good0_waitRoom p m hg hl, mapOK_waitRoom hmap hlt (fun r hr _ => ⟨hacq r hr, Nat.le_refl _⟩)⟩,
+        by rw [reqsLen_waitRoom]; exact Nat.le_refl _⟩
+    · rename_i hl
+      exact ⟨good_takeSlotAndCreate p m true hg hmap hlt (by simpa using hl),
+        by rw [reqsLen_takeSlotAndCreate]; exact Nat.le_refl _⟩
 
 theorem tame_pullItem (p : Pool) (m rest) : Tame p (p.pullItem m rest) := by
   unfold pullItem
   simp only
-  exact Tame.trans (Tame.trans (tame_modReq p m _) (tame_logEv _ _)) (tame_runHooks _ m _)
+  refine Tame.trans (Tame.trans (tame_modReq p m _ ?_) (tame_logEv _ _)) (tame_runHooks _ m _)
+  intro x
+  exact ⟨rfl, rfl, rfl, by simp [Req.pend], fun _ _ h => by cases h⟩
+
+/-- taking a slot of the call's own semaphore on the fast path: one slot of `m` is in flight -/
+theorem mapMid_takeMapSlot {p : Pool} {m : Nat} (h : MapOK p)
+    (hl : (p.reqs[m]?.getD default).mapSem.locked = false) : MapMid (p.takeMapSlot m) m 1 := by
+  unfold takeMapSlot
+  refine (h.mid m).modReq _ 1 ?_ (fun _ => rfl) (fun _ _ _ _ hf => by cases hf)
+  intro r v hr hv
+  rw [hr] at hl
+  have hpos := locked_false_pos r.mapSem v hv hl
+  refine ⟨v - 1, by show (r.mapSem.value.dec) = _; rw [hv]; simp [Cap.dec], ?_⟩
+  have hp : Req.pend { r with acquired := true, frame := MFrame.running, mapSem := { r.mapSem with value := r.mapSem.value.dec } } = 0 := by
+    simp [Req.pend]
+  have hw : ({ r with acquired := true, frame := MFrame.running, mapSem := { r.mapSem with value := r.mapSem.value.dec } } : Req).mapSem.waiters = r.mapSem.waiters := rfl
+  rw [hp, hw]; omega
 
 /-- `_arg_consumer` from any position, argument iterator (user code) included -/
-theorem good_mapLoop {cap : Cap} {L : Bool} (m : Nat) (items : List Item) (p : Pool) (hg : Good cap L p) :
-    Good cap L (mapLoop m items p) := by
+theorem good_mapLoop {cap : Cap} {L : Bool} (m : Nat) (items : List Item) (p : Pool) (hg : Good cap L p)
+    (hlt : m < p.reqs.length) : Good cap L (mapLoop m items p) := by
   induction items generalizing p with
   | nil =>
     unfold mapLoop
@@ -179,23 +307,34 @@ theorem good_mapLoop {cap : Cap} {L : Bool} (m : Nat) (items : List Item) (p : P
   | cons it rest ih =>
     unfold mapLoop
     simp only
-    have hg0 := (tame_pullItem p m rest).good hg
+    have t0 := tame_pullItem p m rest
+    have hg0 := t0.good hg
+    have hlt0 : m < (p.pullItem m rest).reqs.length := Nat.lt_of_lt_of_le hlt t0.rql
     split
-    · exact ih _ ((tame_modReq _ m _).good hg0)
+    · exact ih _ ((tame_modReq _ m _).good hg0) (by simpa [modReq] using hlt0)
     · split
       · exact (tame_waitMapSem _ m).good hg0
-      · have hg1 : Good cap L ((p.pullItem m rest).takeMapSlot m) := (tame_modReq _ m _).good hg0
-        have hg2 := good_mapStartTask _ m hg1
+      · rename_i hl
+        have hg1 : Good0 cap L ((p.pullItem m rest).takeMapSlot m) := (tame0_modReq _ m _).good0 hg0.toGood0
+        have hm1 := mapMid_takeMapSlot (m := m) hg0.map (by simpa using hl)
+        have hlt1 : m < ((p.pullItem m rest).takeMapSlot m).reqs.length := by simpa [takeMapSlot, modReq] using hlt0
+        have hacq : ReqAt ((p.pullItem m rest).takeMapSlot m) m (fun r => r.acquired = true) :=
+          reqAt_modReq_new _ m _ _ (fun _ => rfl)
+        obtain ⟨hg2, hle⟩ := good_mapStartTask _ m hg1 hm1 hlt1 hacq
         split
-        · exact ih _ hg2
+        · exact ih _ hg2 (Nat.lt_of_lt_of_le hlt1 hle)
         · exact hg2
 
-theorem good_continueSpawner {cap : Cap} {L : Bool} (p : Pool) (m : Nat) (hg : Good cap L p) : Good cap L (p.continueSpawner m) := by
+theorem good_continueSpawner {cap : Cap} {L : Bool} (p : Pool) (m : Nat) (hg : Good cap L p) (hlt : m < p.reqs.length) :
+    Good cap L (p.continueSpawner m) := by
   unfold continueSpawner
   simp only
   split
-  · exact good_applyLoop m _ p hg
-  · exact good_mapLoop m _ p hg
+  · rename_i hk
+    refine good_applyLoop m _ p hg ?_ hlt
+    intro r hr
+    rw [hr] at hk; exact hk
+  · exact good_mapLoop m _ p hg hlt
 
 /-! ### waking up in `acquire()` -/
 
